@@ -13,9 +13,13 @@ EXTENDS Device, TLC
 CONSTANTS Timers,        \* timer values (minutes) the user may ask for; 0 = none
           AutoOffs,      \* auto-shutdown values (seconds) the user may configure
           Step,          \* seconds that pass per Elapse step
-          MaxAir         \* broadcasts that can be in the air at once
+          MaxAir,        \* broadcasts that can be in the air at once
+          Fam            \* the device family behind the API object: "heater", "plug", "shutter" or "thermo"
 
-Dev0 == NewDevice("heater", <<3, 23>>, <<1, 2, 3>>, <<24>>, <<66>>, <<10, 0, 0, 7>>, <<1, 2, 3, 4, 5, 6>>)
+FamCode == CASE Fam = "heater" -> <<3, 23>> [] Fam = "plug" -> <<1, 168>> [] Fam = "shutter" -> <<12, 1>> [] OTHER -> <<14, 1>>
+Dev0 == NewDevice(Fam, FamCode, <<1, 2, 3>>, <<24>>, <<66>>, <<10, 0, 0, 7>>, <<1, 2, 3, 4, 5, 6>>)
+Positions == {0, 37, 100}
+ThermoAsks == [state : {0, 1}, mode : {1, 4}, temp : {18, 30}, fan : {0, 3}, swing : {0, 1}]
 Ctx == [sess |-> <<1, 0, 0, 0>>, ts |-> Zeros(4), dev |-> Dev0.id]
 
 VARIABLES dev,        \* the device
@@ -33,13 +37,22 @@ Init == dev = Dev0 /\ air = <<>> /\ running = FALSE /\ view = None /\ lastCmd = 
 
 \* the user's API object performs an operation; the device applies the decoded frame and acknowledges
 Control(on, m) ==
+  /\ Fam \in {"heater", "plug"}
   /\ dev' = Apply(dev, Ctx @@ [kind |-> "control", on |-> on, timer |-> TimerField(m)])
   /\ lastCmd' = <<"control", on, m>> /\ seen' = 0 /\ air' = <<>>      \* (broadcasts already in the air are older than the command)
   /\ read' = None /\ quiet' = TRUE
   /\ UNCHANGED <<running, view>>
 SetAutoOff(s) ==
+  /\ Fam = "heater"
   /\ dev' = Apply(dev, Ctx @@ [kind |-> "autooff", secs |-> AutoOffField(s)])
   /\ lastCmd' = <<"autooff", s>> /\ seen' = 0 /\ air' = <<>> /\ read' = None /\ quiet' = TRUE /\ UNCHANGED <<running, view>>
+\* a shutter is sent to a position or stopped; a thermostat is told its new state (the status frame of update-only control)
+Acked(cmd) == lastCmd' = cmd /\ seen' = 0 /\ air' = <<>> /\ read' = None /\ quiet' = TRUE /\ UNCHANGED <<running, view>>
+SetPosition(p) == Fam = "shutter" /\ dev' = Apply(dev, Ctx @@ [kind |-> "runnerpos", pos |-> p]) /\ Acked(<<"position", p>>)
+StopShutter == Fam = "shutter" /\ dev' = Apply(dev, Ctx @@ [kind |-> "runnerstop"]) /\ Acked(<<"stop", 0>>)
+TellThermo(a) == /\ Fam = "thermo"
+                 /\ dev' = Apply(dev, Ctx @@ [kind |-> "breezestatus", state |-> a.state, mode |-> a.mode, temp |-> a.temp, fan |-> a.fan, swing |-> a.swing])
+                 /\ Acked(<<"thermo", a>>)
 \* the API object asks the device for its state over TCP (the same connection the commands use)
 Query == read' = Readback(dev) /\ UNCHANGED <<dev, air, running, view, lastCmd, seen, quiet>>
 Elapse1 == dev' = Elapse(dev, Step) /\ quiet' = FALSE /\ UNCHANGED <<air, running, view, lastCmd, seen, read>>
@@ -52,6 +65,7 @@ Stop == running /\ running' = FALSE /\ UNCHANGED <<dev, air, view, lastCmd, seen
 
 Next == \/ \E on \in {0, 1}, m \in Timers : Control(on, m)
         \/ \E s \in AutoOffs : SetAutoOff(s)
+        \/ (\E p \in Positions : SetPosition(p)) \/ StopShutter \/ (\E a \in ThermoAsks : TellThermo(a))
         \/ Query \/ Elapse1 \/ Broadcast \/ Lose \/ Deliver \/ Start \/ Stop
 Spec == Init /\ [][Next]_vars /\ WF_vars(Elapse1)
 
@@ -60,14 +74,18 @@ Spec == Init /\ [][Next]_vars /\ WF_vars(Elapse1)
 ShortOn == dev.onFor <= 3 * Step
 TypeOK == dev.power \in {0, 1} /\ dev.remaining \in 0..86399 /\ dev.autoOff \in 0..86399 /\ dev.onFor \in 0..86399
 \* an OFF device has no time left; an ON device has some
-PowerAndTimerAgree == (dev.power = 0 <=> dev.remaining = 0)
+PowerAndTimerAgree == Fam \in {"heater", "plug"} => (dev.power = 0 <=> dev.remaining = 0)
 \* a broadcast never shows power or remaining time for a device that is OFF (the normalisation of C05, at the source)
-ReportedNormalised == \A k \in 1..Len(air) : air[k].state = 0 => air[k].watts = 0 /\ air[k].remaining = HHMMSS(0)
+ReportedNormalised == Fam = "heater" => \A k \in 1..Len(air) : air[k].state = 0 => air[k].watts = 0 /\ air[k].remaining = HHMMSS(0)
 \* what the user sees after a broadcast sent after the acknowledged command: that command's effect
 SeesTheCommand ==
   (seen > 0 /\ view # None) =>
      CASE lastCmd[1] = "control" /\ lastCmd[2] = 0 -> view.state = 0
        [] lastCmd[1] = "autooff" -> view.auto = HHMMSS(lastCmd[2] - (lastCmd[2] % 60))
+       [] lastCmd[1] = "position" -> view.position = lastCmd[2] /\ view.direction = <<0, 0>>
+       [] lastCmd[1] = "stop" -> view.direction = <<0, 0>>
+       [] lastCmd[1] = "thermo" -> LET a == lastCmd[2] IN
+                                   view.state = a.state /\ view.mode = a.mode /\ view.target = a.temp /\ view.fan = a.fan /\ view.swing = a.swing
        [] OTHER -> TRUE
 \* a broadcast and a state reply taken from one device state agree on everything both carry; an OFF device has not been on
 ViewsAgreeAlways == ViewsAgree(dev) /\ (dev.power = 0 => dev.onFor = 0)
@@ -78,6 +96,10 @@ ReadSeesTheCommand ==
        [] lastCmd[1] = "control" /\ lastCmd[2] = 1 ->
             read.state = 1 /\ read.left = HHMMSS(Least(86399, IF lastCmd[3] > 0 THEN 60 * lastCmd[3] ELSE dev.autoOff))
        [] lastCmd[1] = "autooff" -> read.auto = HHMMSS(lastCmd[2] - (lastCmd[2] % 60))
+       [] lastCmd[1] = "position" -> read.position = lastCmd[2] /\ read.direction = <<0, 0>>
+       [] lastCmd[1] = "stop" -> read.direction = <<0, 0>>
+       [] lastCmd[1] = "thermo" -> LET a == lastCmd[2] IN
+                                   read.state = a.state /\ read.mode = a.mode /\ read.target = a.temp /\ read.fan = a.fan /\ read.swing = a.swing
        [] OTHER -> TRUE
 \* a state query changes nothing at the device, in the air or at the bridge
 QueriesAreReadOnly == [][Query => dev' = dev /\ air' = air /\ view' = view]_vars
@@ -88,5 +110,7 @@ TimerCountsDown == [][Elapse1 => dev'.remaining <= dev.remaining /\ dev'.autoOff
 \* only the user's operations and the passing of time change the device: the bridge and the air do not
 OnlyCommandsAndTimeChangeTheDevice == [][(Query \/ Broadcast \/ Lose \/ Deliver \/ Start \/ Stop) => dev' = dev]_vars
 \* liveness: a heater that is on switches itself off if nobody interferes (timer or auto-shutdown)
-SwitchesOffEventually == (<>[][~(\E on \in {0, 1}, m \in Timers : Control(on, m))]_vars) => <>(dev.power = 0)
+SwitchesOffEventually == Fam \in {"heater", "plug"} => ((<>[][~(\E on \in {0, 1}, m \in Timers : Control(on, m))]_vars) => <>(dev.power = 0))
+\* a shutter or a thermostat does not change by itself: time alone moves nothing
+TimeMovesOnlyTimers == [][Elapse1 /\ Fam \in {"shutter", "thermo"} => dev' = dev]_vars
 =============================================================================
